@@ -12,7 +12,7 @@ from vf.explore import cur
 from pony import orm
 from pony.orm import core
 
-BOUND = "one model (Student / Group / Course, nullable attributes and relationships, 10 students, 5 groups); ~115 row conditions evaluated by a reference interpreter with the property's rule for missing values, ~35 whole queries with hand-written Python equivalents"
+BOUND = "one model (Student / Group / Course, nullable attributes and relationships, 10 students, 5 groups); ~115 row conditions evaluated by a reference interpreter with the property's rule for missing values, ~35 whole queries with hand-written Python equivalents, ~215 generated conditions with an aggregate over a collection (sum / min / max / avg / count, attribute path and generator form, with and without the JOIN() hint)"
 _M = None
 
 
@@ -252,8 +252,43 @@ def whole_queries(M):
     ]
 
 
+def aggregate_queries(M):
+    """aggregates over a collection inside a condition, written as attribute path and as generator, with and without the JOIN() hint, compared with Python's own sum / min / max / avg / len
+    on the loaded objects (missing values skipped; min / max / avg of nothing is None and selects nothing; sum of nothing is 0)"""
+    import operator as O
+    S, G = M.Student, M.Group
+    allS = lambda: list(S.select().order_by(S.id)); allG = lambda: list(G.select().order_by(G.id))
+    names = lambda objs: sorted(o.name for o in objs)
+    paths = {'g.students.age': (G, allG, lambda g: [x.age for x in g.students]), 'g.students.b': (G, allG, lambda g: [x.b for x in g.students]),
+             'g.students.gpa': (G, allG, lambda g: [x.gpa for x in g.students]), 's.courses.credits': (S, allS, lambda s: [c.credits for c in s.courses])}
+    aggs = {'sum': lambda v: sum(v), 'min': lambda v: min(v) if v else None, 'max': lambda v: max(v) if v else None, 'avg': lambda v: sum(v) / len(v) if v else None}
+    comps = {'== 0': (O.eq, 0), '> 20': (O.gt, 20), '< 5': (O.lt, 5), '!= 5': (O.ne, 5), '>= 3.5': (O.ge, 3.5)}
+    out = []
+    def add(text, E, objs, pyval, var):
+        for hint in ('', 'JOIN'):
+            cond = 'orm.JOIN(%s)' % text if hint else text
+            q = eval('lambda E: orm.select(%s for %s in E if %s)' % (var, var, cond), {'orm': orm})
+            out.append(('%s%s' % ('JOIN hint: ' if hint else '', text), (lambda q=q, E=E: names(q(E))), (lambda objs=objs, pyval=pyval: names(o for o in objs() if pyval(o)))))
+    for ptext, (E, objs, getter) in paths.items():
+        var = ptext[0]; coll, attr = ptext.split('.')[1:]
+        for aname, afn in aggs.items():
+            for ctext, (cop, k) in comps.items():
+                def pyval(o, getter=getter, afn=afn, cop=cop, k=k):
+                    v = afn([x for x in getter(o) if x is not None])
+                    return v is not None and cop(v, k)
+                add('orm.%s(%s) %s' % (aname, ptext, ctext), E, objs, pyval, var)
+                if aname in ('sum', 'max') and ctext in ('== 0', '> 20'):
+                    add('orm.%s(x.%s for x in %s.%s) %s' % (aname, attr, var, coll, ctext), E, objs, pyval, var)
+    for ctext, (cop, k) in {'== 0': (O.eq, 0), '> 1': (O.gt, 1), '!= 2': (O.ne, 2), '< 2': (O.lt, 2)}.items():
+        add('orm.count(g.students) %s' % ctext, G, allG, (lambda o, cop=cop, k=k: cop(len(o.students), k)), 'g')
+        add('len(g.students) %s' % ctext, G, allG, (lambda o, cop=cop, k=k: cop(len(o.students), k)), 'g')
+        add('orm.count(s.courses) %s' % ctext, S, allS, (lambda o, cop=cop, k=k: cop(len(o.courses), k)), 's')
+    return out
+
+
 def configs(tier):
-    return [dict(kind='condition', q=n) for n in CONDS] + [dict(kind='query', q=n) for n, f, g in whole_queries(model())]
+    return ([dict(kind='condition', q=n) for n in CONDS] + [dict(kind='query', q=n) for n, f, g in whole_queries(model())]
+            + [dict(kind='aggregate', q=n) for n, f, g in aggregate_queries(model())])
 
 
 DC = ('<python raises>',)
@@ -296,9 +331,13 @@ def case(cfg, values):
                     if w != (o.name in got): diffs.append((o.name, 'selected' if o.name in got else 'not selected', 'reference: %r' % (w,)))
                 st['compared'] = compared
                 return diffs
-            name, q, py = [x for x in whole_queries(M) if x[0] == cfg['q']][0]
+            name, q, py = [x for x in (aggregate_queries(M) if cfg['kind'] == 'aggregate' else whole_queries(M)) if x[0] == cfg['q']][0]
             want = py()
-            got = q()
+            try: got = q()
+            except (core.TranslationError, NotImplementedError) as e:
+                if cfg['kind'] != 'aggregate': raise
+                st['compared'] = 1; st['rejected'] = '%s: %s' % (type(e).__name__, e)          # "a query pony cannot translate raises an error": allowed
+                return []
             st['compared'] = 1
             got = [tuple(x) if isinstance(x, (tuple, list)) else x for x in got]; want = [tuple(x) if isinstance(x, (tuple, list)) else x for x in want]
             return [] if got == want else [('query: %r' % (got,), 'python: %r' % (want,))]
